@@ -700,10 +700,11 @@ def run_native_ob(build, ob):
         res["status"], res["reason"] = "undecided", "timeout"
     elif re.search(r"test result: ok\. 1 passed", out) and res["checks"] > 0:
         res["status"] = "discharged"
-    elif re.search(r"test result: FAILED", out) and "panicked" in out:
+    elif re.search(r"test result: FAILED\. 0 passed; 1 failed", out):
         res["status"] = "failed"
         pm = re.search(r"panicked at ([^\n]*)\n([^\n]*)", out)
-        res["failed"] = [{"check": ob["test"], "description": (pm.group(2) if pm else "panic"), "location": pm.group(1) if pm else ""}]
+        ri = re.search(r"REPLAY-INPUT: ([^\n]*)", out)
+        res["failed"] = [{"check": ob["test"], "description": (pm.group(2) if pm else (ri.group(1) if ri else "the evaluation failed")), "location": pm.group(1) if pm else ""}]
         res["output_tail"] = out[-4000:]
     else:
         res["status"], res["reason"] = "undecided", "native test did not run (build error or anchor lost)"
